@@ -248,28 +248,39 @@ def frontier_rule(fi, d):
     # growth: which statement extends the layer list for this direction
     grow_end = None
 
-    def grow(stmts):
+    def setg(v):
         nonlocal grow_end
+        if grow_end is None or grow_end == v:
+            grow_end = v
+        else:
+            grow_end = 'undecided'      # the list is extended in more than one way
+
+    def grow(stmts):
         for s_ in stmts:
             if isinstance(s_, ast.If):
                 t = fold(s_.test, env)
                 if isinstance(t, bool):
                     grow(s_.body if t else s_.orelse)
-                else:
-                    grow_end = 'undecided'
+                elif any(isinstance(x, ast.Name) and x.id == lay for b_ in (s_.body + s_.orelse) for x in ast.walk(b_)):
+                    setg('undecided')   # the layer list is changed under a condition on run-time values
             elif isinstance(s_, ast.Expr) and isinstance(s_.value, ast.Call) and norm(s_.value.func) == f'{lay}.append':
-                grow_end = -1
+                setg(-1)
             elif isinstance(s_, ast.Assign) and norm(s_.targets[0]) == lay:
                 if pmatch(f'[__C] + {lay}', s_.value) is not None:
-                    grow_end = 0
+                    setg(0)
                 elif pmatch(f'{lay} + [__C]', s_.value) is not None:
-                    grow_end = -1
+                    setg(-1)
                 else:
-                    grow_end = 'undecided'
+                    setg('undecided')
     grow([s_ for s_ in sw.body if not isinstance(s_, ast.For)])
     want_end = -1 if d == 1 else 0
-    ok = term == 1 - d and order == ('asc' if d == 1 else 'desc') and fr_end == want_end and grow_end == want_end
-    return ok, f'start terminal {term}, site order {order}, frontier index {fr_end!r}, list extended at {grow_end!r}'
+    # every site is evaluated: edge activity may depend on the site, so the sweep has no early exit
+    exits = [x for b_ in sw.body for x in ast.walk(b_) if isinstance(x, (ast.Break, ast.Return))
+             and not any(isinstance(l, (ast.For, ast.While)) and any(x is y for y in ast.walk(l)) for b2 in sw.body
+                         for l in ast.walk(b2) if isinstance(l, (ast.For, ast.While)))]
+    ok = term == 1 - d and order == ('asc' if d == 1 else 'desc') and fr_end == want_end and grow_end == want_end and not exits
+    return ok, (f'start terminal {term}, site order {order}, frontier index {fr_end!r}, list extended at {grow_end!r}' +
+                (f', early exit from the site loop at line {exits[0].lineno}' if exits else ''))
 
 
 def rule_R4(chk, repo):
@@ -379,7 +390,7 @@ def rule_R4(chk, repo):
         ok_f, detail = frontier_rule(fi, d)
         chk.ob(rid, where(repo, fi, fi.node), f'reachability, direction {d}: the sweep starts at terminal {1 - d}, visits the '
                f'sites {"ascending" if d == 1 else "descending"}, extends the layer list at the {"end" if d == 1 else "front"} '
-               f'and reads its frontier from that same end', ok_f, detail, key=f'{rid}|reach-frontier|{d}')
+               f'and reads its frontier from that same end, one layer per site without early exit', ok_f, detail, key=f'{rid}|reach-frontier|{d}')
     chk.floor(rid, 13, 13)
 
 
@@ -410,6 +421,41 @@ def rule_R5(chk, repo):
     return n
 
 
+def rule_R7(chk, repo):
+    rid = 'C17.R7'
+    chk.rule(rid, 'value-independent structure of the tree insertion: in from_optrees, _insert_subtree and _insert_opchain no '
+                  'comparison, filter or truth test has a coefficient-valued operand (a branch with coefficient 0 is still a '
+                  'branch of the tree: skipping it would leave its parent without the edge and identity padding that make the '
+                  'graph consistent)')
+    from ..taint import Taint
+
+    def src(e):
+        return isinstance(e, ast.Attribute) and e.attr in ('coeff', 'coeffs') and isinstance(e.ctx, ast.Load)
+    n = 0
+    for q in ('opgraph.OpGraph.from_optrees', 'opgraph.OpGraph._insert_subtree', 'opgraph.OpGraph._insert_opchain'):
+        fi = repo.func(q)
+        T = Taint(repo, fi, [p for p in fi.params if p in ('coeffs', 'coeff')], src)
+        in_assert = set()
+        for a in ast.walk(fi.node):
+            if isinstance(a, ast.Assert):
+                in_assert |= {id(x) for x in ast.walk(a)}
+        bad = []
+        for c in ast.walk(fi.node):
+            if id(c) in in_assert:
+                continue
+            if isinstance(c, ast.Compare):
+                ops = [c.left] + list(c.comparators)
+                if any(T.expr_tainted(o) for o in ops if not isinstance(o, ast.Constant)):
+                    bad.append(c)
+            elif isinstance(c, (ast.If, ast.IfExp, ast.While)) and not isinstance(c.test, (ast.Compare, ast.BoolOp)) and \
+                    T.expr_tainted(c.test):
+                bad.append(c.test)
+        chk.ob(rid, where(repo, fi, bad[0] if bad else fi.node), f'{fi.name}: no coefficient value steers which nodes / edges are '
+               f'created', not bad, '; '.join(f'`{norm(b)[:50]}` (line {b.lineno})' for b in bad[:3]), key=f'{rid}|{q}')
+        n += 1
+    return n
+
+
 def run(chk, repo, tier):
     chk.rule('C17.R1', 'id allocation typestate in from_automaton, _insert_opchain, _insert_subtree and from_optrees '
                        '(path-sensitive: the reuse of the terminal id in _insert_subtree is correlated with the '
@@ -421,6 +467,7 @@ def run(chk, repo, tier):
     rule_R3(chk, repo)
     rule_R4(chk, repo)
     rule_R5(chk, repo)
+    rule_R7(chk, repo)
     from . import kronrule
     kronrule.analyse(chk, repo, 'C17.R6')
     chk.undecided += ['denotation of the unrolled graph (sum over automaton paths / padded trees)',
